@@ -401,8 +401,11 @@ class Sampler:
     OFFS = [0, 0, 1, 2, -1, 0.5, 3, -2, 0.25]
     SMALL = [0, 1, -1, 2, 3, 0.5, -0.5, 5, 7, 10, -3, 100, 1.5]
 
-    def __init__(self, seed):
+    def __init__(self, seed, max_mag=None):
         self.rng = random.Random(seed)
+        if max_mag is not None:
+            # contracts whose code divides floats: huge near-equal values only produce rounding noise
+            self.BASES = [b for b in self.BASES if abs(b) <= max_mag]
         self.mode = self.rng.choice(["cluster", "small", "small", "mixed"])
         self.base = self.rng.choice(self.BASES)
 
